@@ -198,6 +198,9 @@ fn check_family(shape: &Shape, value: &Value, l: &mut Local) -> CaseResult {
 }
 
 pub fn replay(case: &Json, l: &mut Local) -> CaseResult {
+    if let Some(r) = super::corpus_checks::replay_corpus(case, l) {
+        return r;
+    }
     let shape = shape_of(case);
     if case.get("input").is_some() {
         let input = input_of(case);
@@ -423,4 +426,5 @@ pub fn run(ctx: &Ctx) {
         },
         |(s, b), l| check_decode(s, b, false, l),
     );
+    super::corpus_checks::c03(ctx);
 }
